@@ -45,6 +45,7 @@ def run(ctx):
         progs.append(alt({"t": "Int", "ty": "usize", "v": v}, {"t": "Int", "ty": "u64", "v": v}, "usize_u64"))
     ctx.samples = [progs[0], progs[1], progs[-1]]
     ctx.distinct = ac.distinct(progs)
+    ac.mc_corpus(ctx, progs[::5] if not th else progs[::2], pieces=10)      # the same equalities on the specification
     ac.judge(ctx, progs, "c15")
     return vlib.finish(ctx, rule="pairs (Scope::new, Scope::raw) and (Package::new, PackageBuilder incl. Default) over paths of 1..4 "
                        "segments and child lists from the C06 generator; body sizes 0..130 and around 4095 (thorough: 0..4200 "
